@@ -540,15 +540,30 @@ def gen_config():
     def gen(text, expose=False):
         return PythonCodeGen(parse_source(text), expose_experiment_variant_function=expose).generate()
 
-    base = parse_source('def e { return "a" weighted 1 }')
-    g = PythonCodeGen(base)
+    # operator table, behaviourally: compile a probe per operator and read the operator text out of the
+    # generated predicate (robust against renaming / restructuring of the generator's internals)
+    spell = {"EQ": "==", "GT": ">", "LT": "<", "GE": ">=", "LE": "<=", "NE": "!=", "IN": "in", "NOT_IN": "not in"}
     ops = []
-    for enum in (st.LogicalOperatorEnum, st.BooleanOperatorEnum):
-        for m in enum:
-            try:
-                ops.append((m.name, str(g._generate_op(m))))
-            except Exception as ex:  # pragma: no cover
-                ops.append((m.name, "<error:%s>" % type(ex).__name__))
+    for name, dsl in spell.items():
+        rhs = "(1, 2)" if name in ("IN", "NOT_IN") else "1"
+        try:
+            out = gen('def e { if zq %s %s { return "a" weighted 1 } }' % (dsl, rhs))
+            line = [l for l in out.splitlines() if l.strip().startswith("if ")][0]
+            m = re.search(r"\(zq (.+?) (?:1|\(1, 2\))\)", line)
+            ops.append((name, m.group(1) if m else "<unparsed>"))
+        except Exception as ex:  # pragma: no cover
+            ops.append((name, "<error:%s>" % type(ex).__name__))
+    for name, dsl in (("AND", "zq == 1 and zr == 2"), ("OR", "zq == 1 or zr == 2"), ("NOT", "not zq == 1")):
+        try:
+            out = gen('def e { if %s { return "a" weighted 1 } }' % dsl)
+            line = [l for l in out.splitlines() if l.strip().startswith("if ")][0]
+            if name == "NOT":
+                m = re.search(r"\((\w+) \(zq == 1\)\)", line)
+            else:
+                m = re.search(r"\(zq == 1\) (\w+) \(zr == 2\)", line)
+            ops.append((name, m.group(1) if m else "<unparsed>"))
+        except Exception as ex:  # pragma: no cover
+            ops.append((name, "<error:%s>" % type(ex).__name__))
 
     s1 = "p'q\\r"   # contains a quote and a backslash
     flags = {}
